@@ -524,7 +524,7 @@ func (s *sut) storedData(t *session.Ticket) *session.Data {
 	if err != nil {
 		return nil
 	}
-	d, err := (&session.EncryptedData{Ciphertext: []byte(v)}).Decrypt(t.Crypter())
+	d, err := (&session.EncryptedData{Ciphertext: []byte(v)}).Decrypt(crypto.NewCrypter(t.EncryptionKey)) // built from the DEK in THIS cookie, not through Ticket.Crypter()
 	if err != nil {
 		return nil
 	}
@@ -544,7 +544,7 @@ func (s *sut) shift(t *session.Ticket, d time.Duration) bool {
 		}
 		m.Tokens.ExpireAt = m.Tokens.ExpireAt.Add(-d)
 		m.Tokens.RefreshedAt = m.Tokens.RefreshedAt.Add(-d)
-		enc, err := data.Encrypt(t.Crypter())
+		enc, err := data.Encrypt(crypto.NewCrypter(t.EncryptionKey))
 		if err == nil {
 			ttl := s.mr.TTL(t.Key())
 			s.mr.Set(t.Key(), string(enc.Ciphertext))
